@@ -235,6 +235,54 @@ BinaryDiagram ==
   /\ cnt' = BumpAll(cnt, {"binary_diagrams"})
   /\ UNCHANGED lastBubble
 
+
+\* ---------------------------------------------------------------- phase envelope at fixed composition, three-phase equilibria
+\* bubble_point_line / dew_point_line: every state is a bubble (dew) point of the given composition at its own temperature, temperatures
+\* increase, the last state is the critical point (both phases identical) and every point equals the stand-alone calculation (C12).
+\* spinodal line: both states of every point sit on the spinodal (smallest eigenvalue of the scaled Hessian zero) at the feed composition.
+EnvelopeLine ==
+  /\ Ev("EnvelopeLine")
+  /\ LET P == E.points  n == Len(P)  info == <<E.case, E.kind, E.z, E.npoints>> IN
+     \* a point that does not converge is dropped by the drivers (counted below, not a law); a panic is not an outcome the property allows
+     /\ Report("C05.envelope_no_panic", <<info, IF Has(E, "err") THEN E.err ELSE "", l>>, E.ok \/ ~Has(E, "err") \/ SubSeq(E.err, 1, 11) # "Other:Panic")
+     /\ (E.ok /\ n >= 1) =>
+       /\ Report("C05.envelope_ends_at_critical_point", <<info, P[n].v.rho, P[n].l.rho, l>>, FClose(P[n].v.rho, P[n].l.rho, "1e-9", FAbs(P[n].v.rho), "0"))
+       /\ \A k \in 1..(n - 1) :
+            LET r == [ok |-> TRUE, v |-> P[k].v, l |-> P[k].l] IN
+            /\ (E.kind \in {"bubble", "dew"} =>
+                  /\ TwoPhase("C05", E.kind \o " point line", <<info, k>>, r, TolBubble)
+                  /\ CSameX("C05.specification_kept", <<info, k, "composition">>, IF E.kind = "bubble" THEN P[k].l ELSE P[k].v, E.z, "1e-12")
+                  \* between the critical temperature and the cricondentherm a composition has two dew points: compared only below T_c
+                  /\ ((Has(P[k], "alone") /\ FLt(P[k].v.T, FMul("0.99", P[n].v.T))) => Agree("C12.envelope_point_equals_standalone", <<info, k>>, r, P[k].alone, TolGuess)))
+            /\ (E.kind = "spinodal" =>
+                  /\ Report("C06.spinodal_line_equal_T", <<info, k, l>>, EqualT(P[k].v, P[k].l))
+                  /\ Chk("C06.spinodal_eigenvalue", <<info, k, "vapor side", l>>, LamMin(P[k].v), "0", "1", "0", "1e-6")
+                  /\ Chk("C06.spinodal_eigenvalue", <<info, k, "liquid side", l>>, LamMin(P[k].l), "0", "1", "0", "1e-6")
+                  /\ CSameX("C06.spinodal_line_composition", <<info, k, "vapor side">>, P[k].v, E.z, "1e-12")
+                  /\ CSameX("C06.spinodal_line_composition", <<info, k, "liquid side">>, P[k].l, E.z, "1e-12")
+                  /\ Report("C06.spinodal_two_distinct_states", <<info, k, P[k].v.rho, P[k].l.rho, l>>, FLt(P[k].v.rho, P[k].l.rho)))
+  /\ cnt' = BumpAll(cnt, {"envelope_lines", "envelope:" \o E.kind} \cup (IF E.ok THEN {"envelope_lines_ok"} ELSE {})
+                \cup (IF E.ok /\ Len(E.points) < E.npoints THEN {"envelope_lines_with_dropped_points"} ELSE {}))
+  /\ UNCHANGED lastBubble
+
+\* heteroazeotrope: three phases at one temperature and pressure with pairwise equal fugacities; the two liquids differ; T- and p-specified agree
+Hetero ==
+  /\ Ev("Hetero")
+  /\ (E.ok =>
+        LET info == <<E.case, E.T>>
+            vl1 == [ok |-> TRUE, v |-> E.v, l |-> E.l1]
+            vl2 == [ok |-> TRUE, v |-> E.v, l |-> E.l2]
+            ll == [ok |-> TRUE, v |-> E.l1, l |-> E.l2]
+        IN /\ TwoPhase("C05", "heteroazeotrope vapor/liquid1", info, vl1, TolBubble)
+           /\ TwoPhase("C05", "heteroazeotrope vapor/liquid2", info, vl2, TolBubble)
+           /\ TwoPhase("C05", "heteroazeotrope liquid1/liquid2", info, ll, TolBubble)
+           /\ (Has(E, "same_as") =>
+                 /\ CSamePhase("C12.heteroazeotrope_T_p_inverse", <<info, "vapor">>, E.v, E.same_as.v, TolGuessFlash)
+                 /\ CSamePhase("C12.heteroazeotrope_T_p_inverse", <<info, "liquid1">>, E.l1, E.same_as.l1, TolGuessFlash)
+                 /\ CSamePhase("C12.heteroazeotrope_T_p_inverse", <<info, "liquid2">>, E.l2, E.same_as.l2, TolGuessFlash)))
+  /\ cnt' = BumpAll(cnt, {"heteroazeotropes"} \cup (IF E.ok THEN {"heteroazeotropes_ok"} ELSE {}))
+  /\ UNCHANGED lastBubble
+
 \* ---------------------------------------------------------------- C07
 Stability ==
   /\ Ev("Stability")
@@ -257,7 +305,7 @@ Stability ==
 LleSkip == /\ Ev("LleSkip") /\ cnt' = Bump(cnt, "lle_skipped") /\ UNCHANGED lastBubble
 
 Init == l = 1 /\ cnt = NoCount /\ lastBubble = <<>>
-Next == /\ (PureVle \/ PureDiagram \/ Critical \/ CriticalPR \/ Spinodal \/ BubbleDew \/ Flash \/ FlashSweep \/ FlashOutside \/ BinaryDiagram \/ Stability \/ LleSkip)
+Next == /\ (PureVle \/ PureDiagram \/ Critical \/ CriticalPR \/ Spinodal \/ BubbleDew \/ Flash \/ FlashSweep \/ FlashOutside \/ BinaryDiagram \/ Stability \/ LleSkip \/ EnvelopeLine \/ Hetero)
         /\ (l' > NRec => PrintT("STATS " \o ToJson(cnt')))
 TraceSpec == Init /\ [][Next]_vars
 ================================================================================
